@@ -43,6 +43,35 @@ def tv_not(a):
     return None if a is None else (not a)
 
 
+def _emit_rows(ctx, ck, fn, rows):
+    """one obligation per row of is_supported's table.  The specification is (held & !absorbed) | is_new.  The variant
+    !absorbed & (held | is_new) differs from it in one row only -- the pressed key itself being in the absorbed list --
+    and that row cannot occur when the caller forgets the pressed key from mapped_absorbed_keys before it takes the
+    copy it hands in (C08-R1/R2).  So a table that follows the variant on every row is accepted under that premise."""
+    def spec2(val):
+        return tv_and(tv_not(val.get("absorbed")), tv_or(val.get("held"), val.get("is_new")))
+    all1 = all(not unk and want is not None and got == want for val, got, want, unk in rows)
+    all2 = False
+    if not all1 and not getattr(ctx, "no_premises", False):
+        if all(not unk and spec2(val) is not None and got == spec2(val) for val, got, want, unk in rows):
+            from .. import premises
+            bad = [k for k in premises.own_violations(ctx, "C08") if "/C08-R1/" in k or "/C08-R2/" in k or "/anchor/" in k or "/internal/" in k]
+            from . import c08
+            try:
+                fresh = c08.absorbed_copy_is_fresh(ctx)
+            except Exception:
+                fresh = False
+            all2 = not bad and fresh
+    for val, got, want, unk in rows:
+        name = "row:%s" % ",".join("%s=%s" % (kk, "T" if vv else "F") for kk, vv in sorted(val.items()))
+        if all2:
+            ck.ob("C03-T1", fn, name, True, detail="continue=%s; the table is !absorbed&(held|is_new), equal to the specification on every row "
+                  "that can occur: the pressed key is never in the absorbed list it is tested against (C08-R1/R2 hold)" % got)
+        else:
+            ck.ob("C03-T1", fn, name, not unk and want is not None and got == want,
+                  detail="continue=%s, specification (held&!absorbed)|is_new=%s %s" % (got, want, unk or ""))
+
+
 def run(ctx):
     ck = ctx.check
     K = kt.KT(ctx)
@@ -225,6 +254,7 @@ def run(ctx):
             ck.ob("C03-T1", sup.path, "exhaustion->true", p.outcome[0] == "return" and const_int(p.outcome[1]) == 1)
         x = il.elem
         nrows = 0
+        rows_ = []
         for p in il.cont_paths + il.break_paths:
             val = {}
             unk = []
@@ -247,8 +277,8 @@ def run(ctx):
             else:
                 got = None
             nrows += 1
-            ck.ob("C03-T1", sup.path, "row:%s" % ",".join("%s=%s" % (kk, "T" if vv else "F") for kk, vv in sorted(val.items())),
-                  not unk and want is not None and got == want, detail="continue=%s, specification (held&!absorbed)|is_new=%s %s" % (got, want, unk or ""))
+            rows_.append((val, got, want, unk))
+        _emit_rows(ctx, ck, sup.path, rows_)
         ck.floor("C03-T1", "table-rows", nrows, 2)
 
     # the "held" set that is_supported consults is kept exact: every acted-on press records the key on every
